@@ -8,7 +8,7 @@ read groups and programs through any pointer the caller may hold — stale ones 
 MergeHeaders, field edits), executed by `step` from the empty world.  `E : Ext` (date and URI parsing) is
 arbitrary.
 -/
-import Hts.Lemmas.HeaderFrame
+import Hts.Lemmas.HeaderClean3
 namespace Hts.Props.C07
 open Hts.Model.Header
 
@@ -300,6 +300,56 @@ example : ∃ w', decodeBinary goExt (pushHeader wM {}) wM.hdrs.length (marshalB
   binary_roundtrip_partial goExt wM wM_inv 0 (by decide) wM_api.1 wM_api.2 (by decide) (by rw [wM_view]; decide)
     (by rw [wM_view]; intro r hr; simp only [List.mem_cons, List.not_mem_nil, or_false] at hr
         rcases hr with rfl | rfl | rfl <;> decide)
+
+/-! ## Part 3: headers reachable through clean API operations are API-built — no hypothesis on the header
+
+`CleanOp E op`: NewHeader(nil, refs), the Version/SortOrder/GroupOrder fields with a non-empty clean version and orders
+0..3, comments without LF/CR, NewReference/NewReadGroup/NewProgram with well-formed arguments (`WFRef`/`WFRg`/`WFPg`: clean
+strings, valid length, 16-byte MD5, canonical date and URI, distinct unknown extra tags), Add*/Remove*/SetName with a
+clean name/Clone of items, taking pointers out of a header, Header.Clone, MergeHeaders, and UnmarshalText / NewHeader(text, refs)
+of a `CleanText` (@SQ/@RG/@PG lines as the serialisers write them from well-formed items, @CO lines without LF/CR, each
+ended by LF).  Not in the sub-language: DecodeBinary (`de`), @HD lines and lines in any other form, Header.Set (`hs`). -/
+
+/-- every live header of a world reached from the empty world through clean operations is API-built, with canonical URIs -/
+theorem apiBuilt_reachable (E : Ext) (ops : List Op) (hc : ∀ op ∈ ops, CleanOp E op) (h : Nat)
+    (hl : live (run E {} ops) h = true) :
+    ApiBuilt E (view (run E {} ops) h) ∧ UriCanon E (view (run E {} ops) h) :=
+  apiBuilt_of_dinv (dinv_run E ops {} (dinv_empty E) hc) hl
+
+/-- text round trip for EVERY header reachable through clean operations: parsing its text into a fresh header
+succeeds and exposes equal values, hence identical text and binary -/
+theorem text_roundtrip_reachable (E : Ext) (ops : List Op) (hc : ∀ op ∈ ops, CleanOp E op) (h : Nat)
+    (hl : live (run E {} ops) h = true) :
+    ∃ w', unmarshalText E (pushHeader (run E {} ops) {}) (run E {} ops).hdrs.length (marshalText (run E {} ops) h) = (w', .ok) ∧
+      WInv w' ∧ view w' (run E {} ops).hdrs.length = view (run E {} ops) h ∧
+      marshalText w' (run E {} ops).hdrs.length = marshalText (run E {} ops) h ∧
+      marshalBinary w' (run E {} ops).hdrs.length = marshalBinary (run E {} ops) h :=
+  text_roundtrip_partial E _ (hinv_reachable E ops).1 h (live_lt hl) (apiBuilt_reachable E ops hc h hl).1
+    (apiBuilt_reachable E ops hc h hl).2
+
+/-- binary round trip for every header reachable through clean operations (sizes within the int32 fields) -/
+theorem binary_roundtrip_reachable (E : Ext) (ops : List Op) (hc : ∀ op ∈ ops, CleanOp E op) (h : Nat)
+    (hl : live (run E {} ops) h = true)
+    (hs1 : ((marshalText (run E {} ops) h).length : Int) < 2147483648)
+    (hs2 : ((view (run E {} ops) h).refs.length : Int) < 2147483648)
+    (hs3 : ∀ r ∈ (view (run E {} ops) h).refs, (r.2.1.length : Int) + 1 < 2147483648) :
+    ∃ w', decodeBinary E (pushHeader (run E {} ops) {}) (run E {} ops).hdrs.length (marshalBinary (run E {} ops) h) = (w', .ok) ∧
+      WInv w' ∧ view w' (run E {} ops).hdrs.length = view (run E {} ops) h ∧
+      marshalText w' (run E {} ops).hdrs.length = marshalText (run E {} ops) h ∧
+      marshalBinary w' (run E {} ops).hdrs.length = marshalBinary (run E {} ops) h :=
+  binary_roundtrip_partial E _ (hinv_reachable E ops).1 h (live_lt hl) (apiBuilt_reachable E ops hc h hl).1
+    (apiBuilt_reachable E ops hc h hl).2 hs1 hs2 hs3
+
+/-- non-vacuity: a clean history of 22 operations (incl. UnmarshalText of three clean lines); its last header (a merge)
+is live and has three references, three read groups and two programs; the theorems above apply to it without any
+further hypothesis -/
+example : live (run goExt {} exClean) 2 = true ∧
+    (view (run goExt {} exClean) 2).refs.map (fun x => (x.1, x.2.1)) = [(0, str "a"), (1, str "c"), (2, str "d")] ∧
+    (view (run goExt {} exClean) 2).rgs.map (fun x => (x.1, x.2.1)) = [(0, str "g3"), (1, str "x"), (2, str "g2")] ∧
+    (view (run goExt {} exClean) 2).pgs.map (fun x => (x.1, x.2.1)) = [(0, str "p1"), (1, str "p2")] ∧
+    (view (run goExt {} exClean) 2).f.comments = [str "x\ty", str "a\tb"] := by decide
+example : ApiBuilt goExt (view (run goExt {} exClean) 2) ∧ UriCanon goExt (view (run goExt {} exClean) 2) :=
+  apiBuilt_reachable goExt exClean exClean_clean 2 (by decide)
 
 /-! ### non-vacuity (tests): a history with remove-then-add of the same name, a rename through a stale
 pointer, a clone, parsed text, and a merge of three overlapping headers in which a reference is replaced -/
